@@ -251,6 +251,7 @@ func checkC07(p *Prog, r *Report) {
 		"no panic instruction", "an explicit panic sits in EndBlock or "+FuncName(bfn)+": a failed burn (e.g. locked coins) would halt the chain")
 	checkBurnGenesisIndependentOfBalances(p, r, kp)
 	checkNoPlainAccountAtModuleAddress(p, r, kp)
+	checkBurnWritesNoAccounts(p, r, kp)
 	errUsedBad := false
 	if refs := burnCall.Referrers(); refs != nil {
 		for _, u := range *refs {
@@ -949,4 +950,35 @@ func termReadsAccountState(p *Prog, t *Term, depth int) bool {
 		}
 	}
 	return false
+}
+
+
+// checkBurnWritesNoAccounts: what is spendable at the burn address is for the bank and the account's vesting schedule to say. The
+// burn module replaces, creates or removes no account: rewriting a vesting account there as a plain one turns locked coins into
+// spendable ones, and the sweep then removes more from the supply than was spendable.
+func checkBurnWritesNoAccounts(p *Prog, r *Report, kp func(string, string) string) {
+	n, nBad := 0, 0
+	for _, fn := range p.ModFuncs {
+		if fn.Blocks == nil || p.IsGenerated(fn) || !InPkgs(fn, "x/burn") {
+			continue
+		}
+		n++
+		for _, cs := range callSites(fn) {
+			m := cs.Name
+			if cs.Instr.Common().IsInvoke() {
+				m = cs.Instr.Common().Method.Name()
+			} else if i := strings.LastIndex(m, "."); i >= 0 {
+				m = m[i+1:]
+			}
+			switch m {
+			case "SetAccount", "RemoveAccount", "NewAccount", "NewAccountWithAddress", "SetModuleAccount":
+				nBad++
+				r.Fail(kp("WMC", "burn-writes-account@"+FuncName(fn)+"→"+m), "the burn module writes no account: what is spendable at the burn address is decided by the bank and the account's own schedule", p.Pos(cs.Instr.Pos()),
+					fmt.Sprintf("%s calls %s: an account rewritten by the burn module (a vesting account turned into a plain one) makes locked coins spendable, and the sweep burns more than was spendable there", FuncName(fn), cs.Name))
+			}
+		}
+	}
+	if nBad == 0 {
+		r.OK(kp("WMC", "burn-writes-account#none"), "the burn module writes no account: what is spendable at the burn address is decided by the bank and the account's own schedule", "x/burn", fmt.Sprintf("%d functions of x/burn, no account constructor, SetAccount or RemoveAccount call", n))
+	}
 }
